@@ -8,6 +8,7 @@ package strategy
 import (
 	"context"
 	"fmt"
+	"sort"
 	"time"
 
 	corev1 "k8s.io/api/core/v1"
@@ -94,6 +95,13 @@ func ManageDeployment(client runtimeclient.Client, daemonset *datadoghqv1alpha1.
 			}
 		}
 	}
+
+	// Replace the pods that are already unavailable first: the deletion budget grows by their number,
+	// so an available pod must only be deleted with what is left of maxUnavailable.
+	sort.SliceStable(allPodToDelete, func(i, j int) bool {
+		return !podutils.IsPodAvailable(params.PodByNodeName[allPodToDelete[i]], 0, metaNow) &&
+			podutils.IsPodAvailable(params.PodByNodeName[allPodToDelete[j]], 0, metaNow)
+	})
 
 	// Retrieves parameters for calculation
 	maxUnavailable, err := intstrutil.GetValueFromIntOrPercent(params.Strategy.RollingUpdate.MaxUnavailable, nbNodes, true)
